@@ -161,6 +161,12 @@ pub fn gen_c12(cx: &mut Ctx, prop: &str) {
 
 pub fn gen_c13(cx: &mut Ctx) {
     gen_c12(cx, "C13");
+    // stack probes, each in its own process: nesting depth and the width of one operator chain
+    for (shape, n) in [("paren", 300usize), ("paren", 600), ("not", 600), ("negparen", 600), ("orchain", 5000), ("orchain", 50000), ("andchain", 20000), ("mixchain", 30000)] {
+        let ans = run_probe(shape, n);
+        writeln!(cx.out, "C13 probe {} {} => {} ;nt", shape, n, ans).unwrap();
+        cx.count += 1;
+    }
     // nesting depth: balanced and unbalanced towers of parentheses and negations
     for depth in [100usize, 254, 255, 256, 257, 300, 600] {
         let open = "(".repeat(depth);
@@ -202,10 +208,29 @@ pub fn gen_c13(cx: &mut Ctx) {
 }
 
 /// `(((…a…)))`, `!!!…a`, `!(!(…a…))` parsed on a thread with a 2 MiB stack
+/// runs one probe in a child process and reports `ok`, `fail` or `abort` (killed by a signal, e.g. a
+/// stack overflow, which cannot be caught in-process)
+pub fn run_probe(shape: &str, n: usize) -> String {
+    let exe = std::env::current_exe().expect("HARNESS: current_exe");
+    match std::process::Command::new(exe).args(["depth", shape, &n.to_string()]).output() {
+        Ok(out) => {
+            if out.status.success() {
+                String::from_utf8_lossy(&out.stdout).trim().to_string()
+            } else {
+                "abort".to_string()
+            }
+        }
+        Err(_) => "abort".to_string(),
+    }
+}
+
 pub fn depth_probe(shape: &str, n: usize) {
     let text = match shape {
         "paren" => format!("{}a{}", "(".repeat(n), ")".repeat(n)),
         "not" => format!("{}a", "!".repeat(n)),
+        "orchain" => vec!["a"; n].join(" | "),
+        "andchain" => format!("({})", vec!["a"; n].join(" & ")),
+        "mixchain" => (0..n).map(|i| if i % 3 == 0 { "a & b" } else { "!c" }).collect::<Vec<_>>().join(" | "),
         _ => format!("{}a{}", "!(".repeat(n), ")".repeat(n)),
     };
     let handle = std::thread::Builder::new()
@@ -217,7 +242,7 @@ pub fn depth_probe(shape: &str, n: usize) {
                     // the result must still be the variable under n negations / groups
                     let v = BTreeMap::from([("a".to_string(), true)]);
                     use biodivine_boolean_functions::traits::Evaluate;
-                    let expect = if shape_is_neg(&text) { n % 2 == 0 } else { true };
+                    let expect = if text.contains('|') && text.contains('!') { true } else if shape_is_neg(&text) { n % 2 == 0 } else { true };
                     // drop iteratively-unsafe deep tree on this thread as well
                     let ok = e.evaluate(&v) == expect;
                     std::mem::forget(e);
@@ -249,6 +274,10 @@ pub fn gen_c14(cx: &mut Ctx) {
         }
     }
     for e in crate::gen::wide_exprs(&mut cx.rng, &names(&["a", "b", "x_10"]), true) {
+        cx.emit("C14", "roundtrip", &[Arg::F(Val::E(e.clone()))], true);
+        cx.emit("C14", "print", &[Arg::F(Val::E(e))], true);
+    }
+    for e in crate::gen::shared_exprs() {
         cx.emit("C14", "roundtrip", &[Arg::F(Val::E(e.clone()))], true);
         cx.emit("C14", "print", &[Arg::F(Val::E(e))], true);
     }
@@ -489,6 +518,22 @@ pub fn gen_c15(cx: &mut Ctx) {
                             cx.emit("C15", obs, &[Arg::F(r.clone())], true);
                         }
                         cx.emit("C15", "equiv", &[Arg::F(r.clone()), Arg::F(r.clone())], true);
+                        // compared with, and evaluated like, any object of the same kind
+                        let k = match &r { Val::E(_) => 0, Val::T(_) => 1, Val::B(_) => 2 };
+                        if let Some(other) = pool_pick(cx, &pool, k) {
+                            cx.emit("C15", "equiv", &[Arg::F(r.clone()), Arg::F(other.clone())], true);
+                            cx.emit("C15", "implied", &[Arg::F(r.clone()), Arg::F(other.clone())], true);
+                            cx.emit("C15", "implied", &[Arg::F(other), Arg::F(r.clone())], true);
+                        }
+                        let mut v = BTreeMap::new();
+                        for n in &universe {
+                            if cx.rng.below(2) == 0 {
+                                v.insert(n.clone(), cx.rng.coin());
+                            }
+                        }
+                        let dflt = cx.rng.coin();
+                        cx.emit("C15", "eval", &[Arg::F(r.clone()), Arg::V(v.clone()), Arg::O(dflt)], true);
+                        cx.emit("C15", "evalc", &[Arg::F(r.clone()), Arg::V(v)], true);
                     }
                     pool.push(r);
                 }
@@ -683,6 +728,18 @@ pub fn gen_c16(cx: &mut Ctx) {
         variants.push(format!("\n{}", base));
         variants.push(format!("{}\n\n", base.trim_end_matches('\n')));
         variants.push(format!("{}\n \n", base.trim_end_matches('\n')));
+        // the output column labelled like one of the inputs (a legal header: only input names must differ)
+        {
+            let h: Vec<&str> = lines[0].split(',').collect();
+            if h.len() >= 2 && h.iter().any(|c| !["0", "1", "T", "F", "true", "false", "True", "False"].contains(c)) {
+                let mut h2 = h.clone();
+                let last = h2.len() - 1;
+                h2[last] = h[cx.rng.below(last)];
+                let mut l: Vec<String> = lines.iter().map(|x| x.to_string()).collect();
+                l[0] = h2.join(",");
+                variants.push(l.join("\n"));
+            }
+        }
         // duplicate a header name
         let first: Vec<&str> = lines[0].split(',').collect();
         if first.len() >= 3 {
@@ -843,6 +900,20 @@ pub fn gen_c20(cx: &mut Ctx) {
             calls.push((s("essential"), vec![Arg::F(Val::E(tree.clone()))]));
         }
         calls.push((s("implied"), vec![Arg::F(x.clone()), Arg::F(y.clone())]));
+        // the by-value connectives under different ownership of the operand handles (who else holds the
+        // operand is not part of its value): operands with every kind of root
+        {
+            let t1 = random_tree(&mut rng, 2, &universe, true, 2);
+            let t2 = random_tree(&mut rng, 2, &universe, true, 2);
+            let both = *rng.pick(&["and.own", "or.own", "xor.own", "imply.own", "iff.own"]);
+            if t1.to_string().len() + t2.to_string().len() < 600 {
+                calls.push((s(both), vec![Arg::F(Val::E(t1)), Arg::F(Val::E(t2))]));
+            }
+            let pick2 = |rng: &mut Rng| -> Vec<crate::E> { let mut v = vec![]; for _ in 0..2 + rng.below(2) { v.push(lit(rng.pick(&universe[..]).as_str())); } v };
+            let (l, r) = (pick2(&mut rng), pick2(&mut rng));
+            let (l, r) = if rng.coin() { (Expression::n_ary_and(&l), Expression::n_ary_and(&r)) } else { (Expression::n_ary_or(&l), Expression::n_ary_or(&r)) };
+            calls.push((s(*rng.pick(&["and.own", "or.own", "xor.own"])), vec![Arg::F(Val::E(l)), Arg::F(Val::E(r))]));
+        }
         // enumerations that are consumed only partly leave whatever they cache behind them
         if kind == 1 {
             for _ in 0..3 {
@@ -923,7 +994,20 @@ pub fn gen_c20(cx: &mut Ctx) {
         let r2 = crate::ops::run(op, args);
         let r2d = if watched { format!("{}|{}", r2, debug_of(op, args)) } else { r2.clone() };
         let after: Vec<String> = if watched { args.iter().map(observe).collect() } else { vec![] };
-        let pure = before == after && r1d == r2d;
+        // equal arguments, equal results: the three ownership variants of one call must coincide
+        let variants_equal = if op.ends_with(".own") {
+            match (&args[0], &args[1]) {
+                (Arg::F(Val::E(x)), Arg::F(Val::E(y))) => {
+                    let [a, b, c] = crate::ops::own_variants(op, x, y);
+                    let t = |e: &crate::E| format!("{:?}|{}", e, e);
+                    t(&a) == t(&b) && t(&b) == t(&c)
+                }
+                _ => true,
+            }
+        } else {
+            true
+        };
+        let pure = before == after && r1d == r2d && variants_equal;
         results.push((i, format!("{} {}", fnv(&r1d), enc_bool(pure))));
     }
     results.sort();
